@@ -84,14 +84,20 @@ class BlockDiagonalOperator(EndomorphicOperator):
 
     def _combine_chain(self, op):
         check_object_identity(self._domain, op._domain)
-        res = {key: v1(v2)
-               for key, v1, v2 in zip(self._domain.keys(), self._ops, op._ops)}
+        # A missing block acts as the identity
+        res = {key: v2 if v1 is None else (v1 if v2 is None else v1(v2))
+               for key, v1, v2 in zip(self._domain.keys(), self._ops, op._ops)
+               if not (v1 is None and v2 is None)}
         return BlockDiagonalOperator(self._domain, res)
 
     def _combine_sum(self, op, selfneg, opneg):
         from ..operators.sum_operator import SumOperator
         check_object_identity(self._domain, op._domain)
-        res = {key: SumOperator.make([v1, v2], [selfneg, opneg])
+        from ..operators.scaling_operator import ScalingOperator
+        # A missing block acts as the identity
+        def block(key, vv):
+            return ScalingOperator(self._domain[key], 1.) if vv is None else vv
+        res = {key: SumOperator.make([block(key, v1), block(key, v2)], [selfneg, opneg])
                for key, v1, v2 in zip(self._domain.keys(), self._ops, op._ops)}
         return BlockDiagonalOperator(self._domain, res)
 
